@@ -377,8 +377,17 @@ pub fn generate_c07(seed: u64) -> Scenario {
 
 pub fn generate(seed: u64, prop: &str) -> Scenario {
     if prop == "C07" {
+        if seed % 5 >= 2 {
+            // proof of work: short pipeline runs with a real engine; nonces mined by the model,
+            // mutants whose only flaw is a nonce that misses the target (block and uncle)
+            let mut sc = generate(seed, "C07P");
+            sc.prop = "C07".into();
+            return sc;
+        }
         return generate_c07(seed);
     }
+    let pow_only = prop == "C07P";
+    let prop = if pow_only { "C03" } else { prop };
     let mut r = Rng::new(seed ^ 0x51D0_0000);
     let mut cfg = gen_cfg(&mut r);
     if prop == "C14" {
@@ -413,8 +422,8 @@ pub fn generate(seed: u64, prop: &str) -> Scenario {
     let mut header_stage = false;
     let mut tree = if prop == "C03" {
         let mut r3 = Rng::new(seed ^ 0xC03_4EAD);
-        header_stage = r3.chance(3, 5);
-        if r3.chance(1, 2) {
+        header_stage = r3.chance(3, 5) || pow_only;
+        if r3.chance(1, 2) || pow_only {
             cfg.pow = r3.range(1, 2) as u8;
             cfg.permanent_difficulty = false;
         }
@@ -426,6 +435,10 @@ pub fn generate(seed: u64, prop: &str) -> Scenario {
                 muts.extend_from_slice(MUTATIONS_HEADER);
             }
         }
+        if pow_only {
+            muts = vec!["hdr_pow", "hdr_pow", "uncle_pow_invalid", "target"];
+        }
+        let invalid = if pow_only { invalid.max(1) } else { invalid };
         let mut t = gen_tree_with(&mut r, n, rich, invalid, &muts);
         for x in t.iter_mut() {
             if x.recipe.mutation.is_none() && r3.chance(1, 10) {
